@@ -905,6 +905,6 @@ pub fn main(mut chk: Check) -> ! {
         chk.replay_one::<Case, _>("roundtrip", &p, oracle);
     }
     let t = chk.tier();
-    chk.run("roundtrip", t.pick(60_000, 1_500_000), case_strategy(), oracle);
+    chk.run("roundtrip", t.pick(400_000, 3_000_000), case_strategy(), oracle);
     chk.finish()
 }
